@@ -99,36 +99,7 @@ def run(ctx):
            len(ap) == 1 and norm(ap[0]) == '(basepath, file_list) = analyse_paths(file_list, root=root)'.replace('(basepath, file_list)', 'basepath, file_list')
            or (len(ap) == 1 and 'analyse_paths(file_list, root=root)' in norm(ap[0])), norm(ap[0]) if ap else '', ut.loc(f))
 
-    # R14.4
-    init = api.func('ParquetFile.__init__')
-    calls = [c for c in walk_no_nested(init) if isinstance(c, ast.Call) and callee(c) == 'metadata_from_many']
-    ctx.floor('R14.4', 'metadata_from_many call sites in __init__', len(calls), 2)
-    sigs = []
-    for c in calls:
-        kw = {k.arg: norm(k.value) for k in c.keywords}
-        sigs.append(kw)
-        ctx.ob('R14.4', 'api.__init__:many-files-arm-forwards-verify/open_with/root/fs:%s' % norm(c.args[0]),
-               kw == {'verify_schema': 'verify', 'open_with': 'open_with', 'root': 'root', 'fs': 'fs'}, str(kw), api.loc(c))
-    ctx.ob('R14.4', 'api.__init__:sibling-arms-pass-the-same-keywords', all(s == sigs[0] for s in sigs), str(sigs), api.loc(init))
-    cfg_i = CFG(init)
-    for c in calls:
-        st = [s for s in iter_child_stmts(init.body) if isinstance(s, ast.Assign) and s.value is c]
-        if not st:
-            continue
-        n0 = cfg_i.node_of(st[0])
-        follow = []
-        for s in iter_child_stmts(init.body):
-            if s in cfg_i.stmt_node and not isinstance(s, (ast.If, ast.Try, ast.With, ast.For)) and \
-                    cfg_i.dominates(n0, cfg_i.node_of(s)) and s is not st[0]:
-                follow.append(norm(s))
-        need = ['writer.consolidate_categories(fmd)', 'self.fmd = fmd', 'self._set_attrs()']
-        ctx.ob('R14.4', 'api.__init__:many-files-arm-consolidates-stores-and-builds:%s' % norm(c.args[0]),
-               all(x in follow for x in need), str(follow[:6]), api.loc(c))
-    ctx.ob('R14.4', 'api.__init__:verify-parameter-defaults-to-False',
-           any(a.arg == 'verify' for a in init.args.args), '', api.loc(init))
-    mg = wr.func('merge')
-    ctx.ob('R14.4', 'writer.merge:opens-the-list-with-the-callers-verification-choice',
-           'out = ParquetFile(file_list, verify_schema, open_with, root)' in src(mg), '', wr.loc(mg))
+    r144(ctx, api, wr)
 
     # R14.5
     cc = wr.func('consolidate_categories')
@@ -152,3 +123,46 @@ def run(ctx):
            'for rg in fmd.row_groups' in s and 'for col in rg.columns' in s and "key_value[2] = json.dumps(meta, sort_keys=True).encode()" in s, '', wr.loc(cc))
     from . import callsigs as _cs
     _cs.general_rules(ctx, 'R14', ['api.ParquetFile.__init__', 'util.metadata_from_many', 'writer.merge', 'util.analyse_paths'])
+
+
+def r144(ctx, api, wr):
+    # R14.4
+    init = api.func('ParquetFile.__init__')
+    calls = [c for c in walk_no_nested(init) if isinstance(c, ast.Call) and callee(c) == 'metadata_from_many']
+    ctx.floor('R14.4', 'metadata_from_many call sites in __init__', len(calls), 2)
+    sigs = []
+    for c in calls:
+        kw = {k.arg: norm(k.value) for k in c.keywords}
+        sigs.append(kw)
+        ctx.ob('R14.4', 'api.__init__:many-files-arm-forwards-verify/open_with/root/fs:%s' % norm(c.args[0]),
+               kw == {'verify_schema': 'verify', 'open_with': 'open_with', 'root': 'root', 'fs': 'fs'}, str(kw), api.loc(c))
+    ctx.ob('R14.4', 'api.__init__:sibling-arms-pass-the-same-keywords', all(s == sigs[0] for s in sigs), str(sigs), api.loc(init))
+    cfg_i = CFG(init)
+    for c in calls:
+        st = [s for s in iter_child_stmts(init.body) if isinstance(s, ast.Assign) and s.value is c]
+        if not st:
+            continue
+        n0 = cfg_i.node_of(st[0])
+        follow = []
+        for s in iter_child_stmts(init.body):
+            if s in cfg_i.stmt_node and not isinstance(s, (ast.If, ast.Try, ast.With, ast.For)) and \
+                    cfg_i.dominates(n0, cfg_i.node_of(s)) and s is not st[0]:
+                follow.append(norm(s))
+        need = ['writer.consolidate_categories(fmd)', 'self.fmd = fmd', 'self._set_attrs()']
+        pos = [follow.index(x) if x in follow else -1 for x in need]
+        ctx.ob('R14.4', 'api.__init__:many-files-arm-consolidates-stores-and-builds:%s' % norm(c.args[0]),
+               -1 not in pos and pos == sorted(pos),
+               'categories must be consolidated before the handle is built from the metadata (the handle caches the pandas '
+               'metadata): %s' % follow[:6], api.loc(c))
+    # the directory arm defaults the root to the directory itself
+    dflt = [s2 for s2 in iter_child_stmts(init.body) if isinstance(s2, ast.Assign) and norm(s2.targets[0]) == 'root' and 'fn' in norm(s2.value)]
+    ctx.ob('R14.4', 'api.__init__:directory-without-summary-uses-itself-as-root-unless-given',
+           len(dflt) == 1 and norm(dflt[0].value) == 'root or fn',
+           '`%s`: without it the base path is inferred from the common prefix of the part files and a single-valued top '
+           'partition level is swallowed' % (norm(dflt[0]) if dflt else 'no default'), api.loc(init))
+    ctx.ob('R14.4', 'api.__init__:verify-parameter-defaults-to-False',
+           any(a.arg == 'verify' for a in init.args.args), '', api.loc(init))
+    mg = wr.func('merge')
+    ctx.ob('R14.4', 'writer.merge:opens-the-list-with-the-callers-verification-choice',
+           'out = ParquetFile(file_list, verify_schema, open_with, root)' in src(mg), '', wr.loc(mg))
+
